@@ -114,6 +114,31 @@ def inScopeMap : JM → Bool
   | .cons _ v t => inScope v && inScopeMap t
 end
 
+/-- canonical for JSON and YAML (TOML has no integers beyond int64): `canonNum`, or a canonical non-negative integer up
+to MaxUint64 (yaml.v2 resolves it to uint64, `toStringKeyMap` prints it back with `lang.Repr`). -/
+def canonNumJY (lit : Str) : Bool :=
+  canonNum lit ||
+    match parseInt? lit with
+    | some i => decide (intRepr i = lit) && decide (0 ≤ i) && uintInRange 64 i.toNat
+    | none => false
+
+mutual
+/-- representable in JSON and YAML alike (the two-format scope of the format clause). -/
+def inScopeJY : J → Bool
+  | .null => false
+  | .nilArr => false
+  | .num lit => canonNumJY lit
+  | .arr l => inScopeJYList l
+  | .obj m => inScopeJYMap m
+  | _ => true
+def inScopeJYList : JL → Bool
+  | .nil => true
+  | .cons h t => inScopeJY h && inScopeJYList t
+def inScopeJYMap : JM → Bool
+  | .nil => true
+  | .cons _ v t => inScopeJY v && inScopeJYMap t
+end
+
 mutual
 def noNull : J → Bool
   | .null => false
